@@ -143,6 +143,23 @@ fn span_event<C: Held>(w: &World<C>, how: &str) -> Option<()> {
             #[emit::optional]
             span_id: sc.span_id(),
         ),
+        // … with the ids as TEXT (ids that arrive from outside: a bridge, a log line being replayed): an id is an id
+        // whatever it was captured as
+        "spanevtx" => {
+            let (t, p, i) = (sc.trace_id().map(|x| x.to_string()), sc.span_parent().map(|x| x.to_string()), sc.span_id().map(|x| x.to_string()));
+            emit::emit!(
+                rt: &rt,
+                extent: extent,
+                "s",
+                evt_kind: "span",
+                #[emit::optional]
+                trace_id: t.as_deref(),
+                #[emit::optional]
+                span_parent: p.as_deref(),
+                #[emit::optional]
+                span_id: i.as_deref(),
+            )
+        }
         // a typed `Span` carrying its `SpanCtxt`, emitted through the runtime
         "spanevts" => rt.emit(emit::Span::new(emit::Path::new_raw("c18"), "s", extent, sc)),
         // … or through the macro's `evt:` argument
@@ -656,7 +673,7 @@ fn gen_prog(rng: &mut Rng, depth: usize, budget: &mut usize) -> Sexp {
     if *budget == 0 || depth == 0 || rng.chance(1, 4) {
         // a leaf: mostly a plain event, sometimes a span emitted as an event (no guard), in one of its four spellings
         if rng.chance(1, 4) {
-            return Sexp::atom(*rng.pick(&["spanevt", "spanevts", "spanevte", "spanevtp"]));
+            return Sexp::atom(*rng.pick(&["spanevt", "spanevts", "spanevte", "spanevtp", "spanevtx"]));
         }
         return Sexp::atom("event");
     }
